@@ -22,7 +22,7 @@ MANIFEST = {
             'The tail of a short write is flushed by later sends, as every caller in the package sends periodically.',
 }
 LEVEL = 'exploration'
-RULE = ('case = (message sizes, recv buffer size, send plan, pipe capacity, recv fragmentation plan, event order, optional corruption of one frame). '
+RULE = ('case = (message sizes, recv buffer size, send plan, pipe capacity, recv fragmentation plan, event order, optional corruption of one frame, optional second life: the receiving connection object dies in the middle of a frame, is connected again and must deliver a second message list exactly). '
         'non-trivial = >=1 message was split across >=2 reads AND >=1 socket.send was short or refused; distinct = distinct case digests')
 ASSUMPTIONS = ['fake socket semantics: send accepts a prefix or raises EAGAIN; recv returns available bytes up to the requested size or raises EAGAIN; EOF = empty read',
                'no timeouts (clock frozen) in this property']
@@ -54,6 +54,9 @@ class FakeSocket(object):
 
     def getsockopt(self, level, opt):
         return 0
+
+    def connect(self, addr):
+        raise real_socket.error(errno.EINPROGRESS, 'in progress')
 
     def close(self):
         self.closed = True
@@ -141,6 +144,11 @@ def strategy(tier):
         'capacity': st.sampled_from([1, 5, 64, 300, 1 << 20]),
         'events': st.lists(st.integers(0, 3), max_size=40),
         'corrupt': corruption,
+        # second life: the receiving connection object dies in the middle of a frame and is connected again (the
+        # dialling side of the transport reuses its TcpConnection object); then further messages are sent
+        'relife': st.one_of(st.none(), st.fixed_dictionaries({
+            'size': size, 'cut': st.integers(0, 5000), 'sizes': st.lists(size, min_size=1, max_size=5),
+            'recv_plan': st.lists(st.sampled_from([1, 2, 3, 5, 17, 100, 1 << 20]), max_size=6)})),
     })
 
 
@@ -376,7 +384,82 @@ def run_case(case):
             viol = ('onDisconnected-twice', 'receiver onDisconnected called %d times' % disc['r'])
         if viol is None and R.state == T.CONNECTION_STATE.DISCONNECTED and disc['r'] != 1:
             viol = ('disconnected-without-callback', 'receiver is DISCONNECTED but onDisconnected was called %d times' % disc['r'])
+    relife = case.get('relife')
+    relived = False
+    if viol is None and relife is not None:
+        n0 = len(received)
+        if R.state != T.CONNECTION_STATE.DISCONNECTED:
+            # a frame arrives partly (at least its header), then the connection ends
+            p0 = len(enc_pipe.buf)
+            enc.send(('dying', payload(99, relife['size'])))
+            frame = bytes(enc_pipe.buf[p0:])
+            cut = 4 + relife['cut'] % max(1, len(frame) - 4)
+            ab.capacity = 1 << 30
+            ab.buf += frame[:cut]
+            ab.eof = True
+            for _ in range(5000):
+                if R.state == T.CONNECTION_STATE.DISCONNECTED or escaped:
+                    break
+                sb.recv_budget = None
+                sb.first_in_event = True
+                if not call(sb, EV.READ):
+                    break
+        if not escaped and R.state == T.CONNECTION_STATE.DISCONNECTED:
+            n0 = len(received)
+            d0 = disc['r']
+            ab2, ba2 = Pipe(1 << 30), Pipe(1 << 30)
+            sb2 = FakeSocket(ba2, ab2, {'send': [], 'si': 0, 'recv': relife['recv_plan'], 'ri': 0})
+            sa2 = FakeSocket(ab2, ba2, {'send': [], 'si': 0, 'recv': [], 'ri': 0})
+
+            class Shim(object):
+                def __getattr__(self, name):
+                    return getattr(real_socket, name)
+
+                def socket(self, *a, **kw):
+                    return sb2
+            saved = T.socket
+            T.socket = Shim()
+            try:
+                ok = R.connect('10.9.9.9', 4321)
+            finally:
+                T.socket = saved
+            if ok:
+                call(sb2, EV.WRITE)
+            if not ok or R.state != T.CONNECTION_STATE.CONNECTED:
+                viol = ('reconnect-failed', 'connect() of the reused connection object returned %r, state %r; escaped %r' % (ok, R.state, escaped[:1]))
+            else:
+                relived = True
+                S2 = T.TcpConnection(poller, socket=sa2, timeout=1e9, recvBufferSize=case['recv_buf'])
+                msgs2 = [(1000 + i, payload(50 + i, sz)) for i, sz in enumerate(relife['sizes'])]
+                for m in msgs2:
+                    S2.send(m)
+                for _ in range(20000):
+                    if S2.getSendBufferSize() > 0:
+                        if not call(sa2, EV.WRITE):
+                            S2._TcpConnection__trySendBuffer()
+                    if ab2.buf:
+                        sb2.recv_budget = None
+                        sb2.first_in_event = True
+                        call(sb2, EV.READ)
+                    if escaped or R.state == T.CONNECTION_STATE.DISCONNECTED:
+                        break
+                    if S2.getSendBufferSize() == 0 and not ab2.buf:
+                        break
+                got2 = received[n0:]
+                if escaped:
+                    viol = ('exception-escaped', escaped[0] + ' (second life of the receiving connection)')
+                elif got2 != msgs2:
+                    viol = ('second-life-messages-wrong', 'the connection object died in the middle of a frame and was connected again; then sent %r, received %r (state %r)' % (
+                        summary(msgs2), summary(got2), R.state))
+                elif disc['r'] != d0:
+                    viol = ('spurious-disconnect', 'second life: disconnect callback without a fault')
+                try:
+                    S2.disconnect()
+                except Exception:
+                    pass
     classes = set()
+    if relived:
+        classes.add('connection-object-reused-after-mid-frame-death')
     split = sb.recv_calls > len(msgs) + 2
     if sa.short_sends:
         classes.add('short-or-refused-send')
